@@ -381,8 +381,17 @@ class GraphGen:
         elif x < 0.94 and self.nval:
             a = self.pick()
             self.toks.append("=v%d" % a)
-        elif x < 0.97:
+        elif x < 0.965:
             self.retain()
+        elif x < 0.98:
+            # a list under construction (start_list + some add_to_list, no end_list yet), kept alive from a register
+            n = r.choice([1, 2, 3])
+            items = [self.pick(4) for _ in range(r.randrange(0, n + 1))]
+            l = self.add("sl%d" % n, "partial_list", self.depth(*items))
+            for it in items:
+                self.toks.append("al%d.%d" % (l, it))
+            self.toks.append("+r%d" % l)
+            self.nreg += 1
         else:
             self.leaf()
 
@@ -431,7 +440,7 @@ class GraphGen:
 
 def gen_graphs(tier, seed):
     rng = vplib.rng_for(seed, "C19/graphs")
-    n = 6000 if tier == "thorough" else 2000
+    n = 6000 if tier == "thorough" else 1500
     cases = []
     plans = ["o", "o", "oo", "ooo", "c", "co", "oc", "coco", "occo", "ccoo"]
     for i in range(n):
@@ -624,10 +633,10 @@ FIXED_PROGRAMS = [
 def gen_programs(tier, seed):
     r = vplib.rng_for(seed, "C19/programs")
     out = list(FIXED_PROGRAMS)
-    n = 1500 if tier == "thorough" else 200
+    n = 1500 if tier == "thorough" else 150
     for _ in range(n):
         out.append(gen_expr(r, r.choice([2, 3, 3, 4])))
-    k = 40 if tier == "thorough" else 12
+    k = 40 if tier == "thorough" else 10
     return ["X " + ",".join("%x" % ord(c) for c in p) + " k=%d" % k for p in out]
 
 
@@ -716,6 +725,9 @@ def evaluate(lines, v, stats, listed, samples):
             k1 = 0
             for rs in recs[1:]:
                 rec = parse_record(rs)
+                for c in parse_raw(rec["pre"])["d"]:
+                    k = cell_kind(c)
+                    stats["cells"][k] = stats["cells"].get(k, 0) + 1
                 if rec["res"].startswith("Err"):
                     fid = classify("O", rec, "")
                     if fid and fid in listed:
